@@ -626,10 +626,21 @@ func (g *gen) genEnum(f *File, scope string) *Enum {
 		}
 		e.Values = append(e.Values, &EnumValue{Name: upper(e.Name) + "_" + w, Num: num})
 	}
-	if n >= 2 && r.Chance(1, 5) {
+	if n >= 2 && r.Chance(1, 4) {
+		// 1-3 further names, for one or two of the numbers (so numbers with 1, 2, 3 and 4 names
+		// occur, also for the first value); the aliases are declared anywhere after the first value
 		e.AllowAlias = true
 		v := hx.Pick(r, e.Values)
-		e.Values = append(e.Values, &EnumValue{Name: upper(e.Name) + "_ALIAS" + g.s.fresh(""), Num: v.Num})
+		for k := 1 + r.Intn(3); k > 0; k-- {
+			if r.Chance(1, 3) {
+				v = hx.Pick(r, e.Values)
+			}
+			a := &EnumValue{Name: upper(e.Name) + "_ALIAS" + g.s.fresh(""), Num: v.Num}
+			pos := 1 + r.Intn(len(e.Values))
+			e.Values = append(e.Values, nil)
+			copy(e.Values[pos+1:], e.Values[pos:])
+			e.Values[pos] = a
+		}
 	}
 	if r.Chance(1, 4) {
 		lo := e.nextNum(nil) + r.Intn(3)
@@ -656,6 +667,64 @@ func (g *gen) genEnum(f *File, scope string) *Enum {
 	}
 	full := scope + e.Name
 	g.enums = append(g.enums, tinfo{Full: full, F: f, Open: !closed, Zero: e.Values[0].Num == 0, E: e})
+	return e
+}
+
+// genAliasEnum builds an `allow_alias` enum whose numbers have 1, 2 or 3 names: zero, a dense block
+// 1..3, isolated numbers with free neighbours (so that ranges next to / around them can be
+// reserved) and negative numbers.  The names of one number are NOT adjacent in declaration order;
+// in a closed enum a non-zero value may be declared first.  No field uses the enum (no default /
+// map-value restrictions apply to it).
+func (g *gen) genAliasEnum(f *File, base string) *Enum {
+	r := g.r
+	e := &Enum{Name: base + g.s.fresh(""), AllowAlias: true}
+	u := upper(e.Name)
+	closed := f.IsProto2()
+	if f.IsEditions() {
+		closed = f.Feature("enum_type") == "CLOSED"
+		switch r.Intn(3) {
+		case 0:
+			e.EnumType, closed = "CLOSED", true
+		case 1:
+			e.EnumType, closed = "OPEN", false
+		}
+	}
+	type grp struct{ num, k int }
+	groups := []grp{
+		{0, 1 + r.Intn(3)}, {1, 1}, {2, 2}, {3, 3},
+		{10, 1 + r.Intn(3)}, {20, 2 + r.Intn(2)}, {-2, 1 + r.Intn(3)},
+	}
+	var first *EnumValue
+	var rest []*EnumValue
+	for _, gp := range groups {
+		for j := 0; j < gp.k; j++ {
+			tag := "V" + strconv.Itoa(gp.num)
+			if gp.num < 0 {
+				tag = "M" + strconv.Itoa(-gp.num)
+			}
+			v := &EnumValue{Name: u + "_" + tag + "_" + string(rune('A'+j)), Num: gp.num}
+			if gp.num == 0 && j == 0 {
+				first = v
+			} else {
+				rest = append(rest, v)
+			}
+		}
+	}
+	hx.Shuffle(r, rest)
+	if closed && r.Chance(1, 3) {
+		// a closed enum may declare a non-zero value first
+		at := r.Intn(len(rest))
+		first, rest[at] = rest[at], first
+	}
+	e.Values = append([]*EnumValue{first}, rest...)
+	e.HiNum, e.LoNum = 20, -2
+	if r.Bool() {
+		e.Reserved = append(e.Reserved, Range{Lo: 100, Hi: 100 + r.Intn(4)})
+		e.HiNum = 110
+	}
+	if r.Bool() {
+		e.ReservedNames = append(e.ReservedNames, u+"_OLD"+g.s.fresh(""))
+	}
 	return e
 }
 
@@ -1415,6 +1484,13 @@ func (g *gen) genZoo(zoo int) {
 	m := &Message{Name: "Zoo" + s.fresh("")}
 	full := pre + m.Name
 	g.msgs = append(g.msgs, tinfo{Full: full, F: f, M: m})
+	// the alias family: an allow_alias enum with numbers of 1, 2 and 3 names, at the top level of
+	// the file or nested in the Zoo message
+	if r.Bool() {
+		f.Enums = append(f.Enums, g.genAliasEnum(f, "ZooAlias"))
+	} else {
+		m.Enums = append(m.Enums, g.genAliasEnum(f, "Alias"))
+	}
 	var plain, members []*Field
 	x := &Extend{Extendee: full}
 	extNum := 1000
